@@ -23,6 +23,10 @@ type uDef struct {
 	Addl     bool              `json:"additional_properties"`
 	AddlInt  bool              `json:"additional_properties_integer"`
 	DiscProp string            `json:"discriminator_is_fixed_property"` // "" | required | optional
+	// additionalProperties with a value type that is no scalar (struct by reference, array, map): the members' own fields
+	// have that type too (they are part of the residual map), and the instances carry the extra members given here
+	AddlSchema map[string]any `json:"additional_properties_schema,omitempty"`
+	AddlExtras map[string]any `json:"additional_members,omitempty"`
 	Pkg      string            `json:"pkg"`
 }
 
@@ -35,6 +39,11 @@ var uMembers = map[string]map[string]any{
 	// SCHEMA name (guard_dog), whatever the type is called (GuardDog)
 	"guard_dog": {"type": "object", "required": []string{"petType"}, "properties": map[string]any{"petType": map[string]any{"type": "string"}, "bark": map[string]any{"type": "boolean"}, "name": map[string]any{"type": "string"}}},
 	"house-cat": {"type": "object", "required": []string{"petType"}, "properties": map[string]any{"petType": map[string]any{"type": "string"}, "lives": map[string]any{"type": "integer"}, "name": map[string]any{"type": "string"}}},
+	// members whose own fields are structs / arrays / maps, for unions whose additional properties have that type
+	"Point":  {"type": "object", "properties": map[string]any{"x": map[string]any{"type": "integer"}, "y": map[string]any{"type": "integer"}, "label": map[string]any{"type": "string"}}},
+	"Seg":    {"type": "object", "properties": map[string]any{"from": map[string]any{"$ref": "#/components/schemas/Point"}, "to": map[string]any{"$ref": "#/components/schemas/Point"}}},
+	"Tagged": {"type": "object", "properties": map[string]any{"tags": map[string]any{"type": "array", "items": map[string]any{"type": "integer"}}}},
+	"Dict":   {"type": "object", "properties": map[string]any{"en": map[string]any{"type": "object", "additionalProperties": map[string]any{"type": "string"}}}},
 	"Bird":   {"type": "object", "required": []string{"petType"}, "properties": map[string]any{"petType": map[string]any{"type": "string"}, "wings": map[string]any{"type": "integer"}}},
 }
 
@@ -74,6 +83,10 @@ func (u uDef) schema() map[string]any {
 		s["type"] = "object"
 		s["additionalProperties"] = map[string]any{"type": "integer"}
 	}
+	if u.AddlSchema != nil {
+		s["type"] = "object"
+		s["additionalProperties"] = u.AddlSchema
+	}
 	return s
 }
 
@@ -111,6 +124,12 @@ func genMember(rng *rand.Rand, m string) map[string]any {
 		return map[string]any{"r": rng.Intn(50)}
 	case "Rect":
 		return map[string]any{"w": rng.Intn(50), "h": rng.Intn(50)}
+	case "Seg":
+		return map[string]any{"from": map[string]any{"x": rng.Intn(50), "label": "start"}, "to": map[string]any{"y": 1 + rng.Intn(50)}}
+	case "Tagged":
+		return map[string]any{"tags": []any{rng.Intn(9), 10 + rng.Intn(9), 20 + rng.Intn(9)}}
+	case "Dict":
+		return map[string]any{"en": map[string]any{"hello": "hello", "bye": "bye"}}
 	}
 	v := map[string]any{"petType": "original"}
 	if rng.Intn(2) == 0 {
@@ -185,6 +204,14 @@ func runC09(r *Report, rng *rand.Rand, thorough bool) {
 		{Name: "UFixedAddl", Key: "oneOf", Members: []string{"Cat", "Dog"}, Fixed: true, Addl: true},
 		{Name: "UFixedAddlInt", Key: "oneOf", Members: []string{"Circle", "Rect"}, Fixed: true, AddlInt: true},
 		{Name: "UAddlInt", Key: "anyOf", Members: []string{"Circle", "Rect"}, AddlInt: true},
+		// additional properties that are structs, arrays, maps: every key of the document is decoded on its own; members absent
+		// from one key's value, shorter arrays and empty values must not inherit anything from the key decoded before
+		{Name: "UAddlStruct", Key: "anyOf", Members: []string{"Seg"}, AddlSchema: map[string]any{"$ref": "#/components/schemas/Point"},
+			AddlExtras: map[string]any{"via": map[string]any{"x": 3, "y": 4}, "origin": map[string]any{}, "named": map[string]any{"label": "n"}}},
+		{Name: "UAddlArray", Key: "oneOf", Members: []string{"Tagged"}, AddlSchema: map[string]any{"type": "array", "items": map[string]any{"type": "integer"}},
+			AddlExtras: map[string]any{"more": []any{4}, "none": []any{}, "two": []any{7, 8}}},
+		{Name: "UFixedAddlMap", Key: "oneOf", Members: []string{"Dict"}, Fixed: true, AddlSchema: map[string]any{"type": "object", "additionalProperties": map[string]any{"type": "string"}},
+			AddlExtras: map[string]any{"de": map[string]any{"hello": "hallo"}, "fr": map[string]any{"bye": "au revoir", "yes": "oui"}, "xx": map[string]any{}}},
 	}
 	unions = append(unions,
 		uDef{Name: "UDiscReq", Pkg: "c09_dreq", Key: "oneOf", Members: []string{"Cat", "Dog"}, Disc: true, Mapping: map[string]string{"cat": "Cat", "dog": "Dog"}, DiscProp: "required"},
@@ -317,6 +344,9 @@ func runC09(r *Report, rng *rand.Rand, thorough bool) {
 			if u.Fixed {
 				// change a fixed property after decoding: the new value must be the one marshalled
 				add(fmt.Sprintf("%s/modify/%s", u.Name, m), u, init, []map[string]any{{"method": "set:Meta", "arg": "changed"}, {"method": "MarshalJSON"}}, meta{kind: "modify", i: i, init: init})
+			}
+			for k2, x := range u.AddlExtras {
+				init[k2] = x
 			}
 			if u.Addl {
 				init["extra"] = "more"
